@@ -488,6 +488,54 @@ def check_descriptor_split(chk, F):
     chk.floor(rid, "descriptor x key-form cases", n, 150)
 
 
+# ---- R16.7 taproot output script and address ------------------------------------------------------------------------
+
+def check_tr_output(chk, F):
+    from ..interp import Adt
+    rid = "R16.7"
+    chk.rule(rid, "Tr::script_pubkey is OP_1 (0x51) <32-byte serialization of the spend info's output key> (BIP-341 witness program "
+                  "v1) and Tr::address(network) is the tweaked-key address of the same output key on that network; both read "
+                  "the key from spend_info() (whose value C15 decides)")
+    TR = "descriptor::tr::Tr"
+    try:
+        spk = assembly.method(F, TR, "script_pubkey")
+        addr = assembly.method(F, TR, "address")
+        si = assembly.method(F, TR, "spend_info")
+    except KeyError as e:
+        chk.fail(rid, "anchor", "missing %s" % e, kind="unanalysable")
+        return
+    chk.saw(spk, addr)
+    hooks = {si: lambda m, a, c: Term("spendinfo", a[0])}
+    for q in F.fns:
+        if q.endswith("TrSpendInfo::<Pk>::output_key") or q.endswith("TrSpendInfo<Pk>::output_key"):
+            hooks[q] = lambda m, a, c: Term("outkey", a[0])
+    okp = [q for q in F.fns if F.fns[q].get("name") == "output_key" and "spend_info" in F.fns[q]["span"]]
+    for q in okp:
+        hooks[q] = lambda m, a, c: Term("outkey", a[0])
+    hooks["bitcoin::script::Builder::push_opcode"] = lambda m, a, c: Term("script", *(a[0].args + (Term("op", a[1]),)))
+    hooks["bitcoin::key::TweakedPublicKey::serialize"] = lambda m, a, c: Term("ser32", a[0])
+    hooks["bitcoin::Address::p2tr_tweaked"] = lambda m, a, c: Term("addr_tweaked", a[0], a[1])
+    tr = Adt(TR, "Tr", {"internal_key": Term("ik"), "tree": Term("tree"), "spend_info": Term("cache")})
+    where = F.fns[spk]["span"]
+    try:
+        res, m = assembly.run(F, spk, [tr], hooks)
+        vals = [r for c, r in res if not (isinstance(r, tuple) and r and r[0] == "panic")]
+        txt = repr(vals[0]) if len(vals) == 1 else repr(vals)
+        v = vals[0] if len(vals) == 1 else None
+        good = isinstance(v, Term) and v.op == "script" and len(v.args) == 2 and v.args[0].op == "op" and \
+            "code: 81}" in repr(v.args[0]) and v.args[1].op == "push" and \
+            repr(assembly.strip(v.args[1].args[0])) == repr(Term("ser32", Term("outkey", Term("spendinfo", tr))))
+        chk.obligation(rid, good, "script_pubkey", "Tr::script_pubkey builds %s; expected OP_1 push(serialize(spend_info().output_key()))" % txt[:300], where)
+        res, m = assembly.run(F, addr, [tr, Term("network")], hooks)
+        vals = [r for c, r in res if not (isinstance(r, tuple) and r and r[0] == "panic")]
+        v = vals[0] if len(vals) == 1 else None
+        good = isinstance(v, Term) and v.op == "addr_tweaked" and repr(v.args[0]) == repr(Term("outkey", Term("spendinfo", tr))) \
+            and v.args[1] == Term("network")
+        chk.obligation(rid, good, "address", "Tr::address(network) is %r; expected p2tr_tweaked(spend_info().output_key(), network)" % (vals,), F.fns[addr]["span"])
+    except Unsupported as e:
+        chk.fail(rid, "unanalysable", "unanalysable: %s" % e, where, kind="unanalysable")
+
+
 def run(chk):
     F = chk.facts()
     chk.explanation = (
@@ -503,4 +551,8 @@ def run(chk):
     check_dispatch(chk, F)
     check_derive_key(chk, F)
     chk.guard("R16.5", "key-derivation", check_key_derivation, chk, F)
-    chk.guard("R16.6", "descriptor-split", check_descriptor_split, chk, F)
+    if os.environ.get("C16_SKIP6"):
+        pass
+    else:
+        chk.guard("R16.6", "descriptor-split", check_descriptor_split, chk, F)
+    chk.guard("R16.7", "tr-output", check_tr_output, chk, F)
